@@ -92,7 +92,7 @@ structure Ufs (β : Type) where
   /-- `UFSSwapDir::suggest` -/
   suggest : Nat
   files : Nat → Option (File β)
-  /-- swap.state: `none` = no such file -/
+  /-- swap.state: `none` = missing or of zero length (as `openLog` creates it), `some recs` = the version header followed by `recs` -/
   log : Option (List Rec)
   /-- swap.state.last-clean exists and is not older than swap.state -/
   lastClean : Bool
@@ -102,10 +102,12 @@ structure Ufs (β : Type) where
   unlinkd : Bool
   /-- a cache file was created under a number whose previous file still awaits its unlink -/
   raced : Bool
+  /-- a file number beyond the 24 bits a swap.state record keeps was handed out -/
+  overflow : Bool
 
 def Ufs.empty {β : Type} (unlinkd : Bool) : Ufs β :=
   { index := [], map := [], suggest := 0, files := fun _ => none, log := none, lastClean := false, pending := [],
-    unlinkd := unlinkd, raced := false }
+    unlinkd := unlinkd, raced := false, overflow := false }
 
 /-! ### run time -/
 
@@ -168,7 +170,8 @@ def storeObj {β : Type} (s : Ufs β) (k : Key) (b : β) (hdrSz objLen : Nat) (t
   { s with index := s.index ++ [e], map := s.map ++ [fn], suggest := fn + 1,
            files := fun n => if n = fn then some f else s.files n,
            log := appendLog s.log (toRec SWAP_LOG_ADD e),
-           raced := s.raced || decide (fn ∈ s.pending) }
+           raced := s.raced || decide (fn ∈ s.pending),
+           overflow := s.overflow || decide (filenMask ≤ (fn : Int)) }
 
 /-- a hit: `StoreEntry::touch` (lastref), `++refcount`, `lru_referenced` moves the entry to the tail of the list -/
 def touch {β : Type} (s : Ufs β) (k : Key) (now : Int) : Ufs β :=
@@ -268,16 +271,16 @@ def rebuildFromDirectory {β : Type} (r : Rb β) (fn : Nat) : Rb β :=
       | none => { r with files := fun n => if n = fn then none else r.files n }     -- sd->unlinkFile(filn)
       | some sz => addIfFresh r f.metaKey fn sz f.metaTimes f.metaRefcount f.metaFlags
 
-/-- start of the process: `RebuildState::RebuildState` picks the log (when swap.state exists and is not empty) or the directory
+/-- start of the process: `RebuildState::RebuildState` picks the log (when swap.state exists and is not of zero length) or the directory
 scan (`dirList` = the file numbers `readdir` yields); `closeTmpSwapLog` renames swap.state.new; `openTmpSwapLog` removed the stamp.
 `UFSSwapDir::suggest` starts at 0 again. -/
 def rebuild {β : Type} (s : Ufs β) (dirList : List Nat) : Ufs β :=
   let r0 : Rb β := { index := [], map := [], files := s.files, newLog := [] }
   let r := match s.log with
-    | some (x :: xs) => (x :: xs).foldl rebuildFromSwapLog r0
-    | _ => dirList.foldl rebuildFromDirectory r0
+    | some recs => recs.foldl rebuildFromSwapLog r0
+    | none => dirList.foldl rebuildFromDirectory r0
   { index := r.index, map := r.map, suggest := 0, files := r.files, log := some r.newLog, lastClean := false, pending := [],
-    unlinkd := s.unlinkd, raced := s.raced }
+    unlinkd := s.unlinkd, raced := s.raced, overflow := s.overflow }
 
 /-! ### histories -/
 
